@@ -307,8 +307,10 @@ def erase_tags(val):
     """objects stored into a summary container / a heap field lose the identity of the element they came from, tokens
     lose their position in the token list"""
     v = map_tags(val, lambda t: '*')
-    if any(a[0] == 'tok' or (a[0] == 'str' and isinstance(a[2], tuple) and a[2][0] == 'p') for a in v):
-        v = frozenset(STR_U if (a[0] == 'tok' or (a[0] == 'str' and isinstance(a[2], tuple) and a[2][0] == 'p')) else a for a in v)
+    if any(a[0] == 'tok' for a in v):
+        # a token that may be the size the reader appended stays recognisable as such (its position is forgotten)
+        v = frozenset((('str', 'u', 'maybe-size') if (a[4] and a[3] is not False and (a[1] is None or '?' in a[4] or (a[1] & a[4]))) else STR_U)
+                      if a[0] == 'tok' else a for a in v)
     return v
 
 
@@ -2829,14 +2831,23 @@ class Interp:
         extra = None
         if len(parts) >= 2 and parts[-1][0] == 'val' and all(a == ('int', 'fsize') for a in parts[-1][1]) \
                 and parts[-2][0] == 'const' and parts[-2][1][-1:].isspace():
-            extra = ('sizeint', self.guard_keywords(fr))
+            extra = ('sizeint', self.guard_keywords(fr) or frozenset({'?'}))
         return av(('str', taint, extra))
 
     def ex_FormattedValue(self, fr, node):
         return self.eval(fr, node.value)
 
+    def ambient_words(self, fr):
+        """string constants the current path is known to be about: prefixes / arguments of tests that held, and the constants
+        local names are narrowed to (`keyword == 'include'` failed, so keyword is 'include_bytes')"""
+        out = set(fr.store.guards)
+        for k, v in fr.store.vars.items():
+            if isinstance(k, str) and 0 < len(v) <= 4 and all(a == NONE or (a[0] == 'c' and a[1] == 'str') for a in v):
+                out |= {a[2] for a in v if a != NONE and 0 < len(a[2]) <= 32}
+        return frozenset(out)
+
     def guard_keywords(self, fr):
-        return frozenset(g.strip().lower() for g in fr.store.guards)
+        return frozenset(g.strip().lower() for g in self.ambient_words(fr))
 
     def ex_UnaryOp(self, fr, node):
         if isinstance(node.op, ast.Not):
@@ -2906,7 +2917,7 @@ class Interp:
             if kb == 'c' and b[2][-1:].isspace():
                 extra = 'wsend'
             if kb == 'str' and b[2] == 'fsize' and lws:
-                extra = ('sizeint', self.guard_keywords(fr))
+                extra = ('sizeint', self.guard_keywords(fr) or frozenset({'?'}))
             return {('str', taint, extra)}
         if is_str_atom(a) and isinstance(op, ast.Mod):
             taint = str_taint(a)
@@ -3458,6 +3469,15 @@ class Interp:
         t = {self.truth(a) for a in v}
         ct = bool(t & {'t', '?'})
         cf = bool(t & {'f', '?'})
+        if isinstance(test, ast.Call) and ct and refine:
+            words = set()
+            for a_ in test.args:
+                if isinstance(a_, ast.Constant) and isinstance(a_.value, str) and 0 < len(a_.value) <= 32:
+                    words.add(a_.value)
+            if words:
+                s_f0 = store.copy() if cf else store
+                store.guards = store.guards | words
+                return True, store, cf, s_f0
         if not refine or not (ct and cf):
             if ct and cf:
                 return True, store, True, store.copy()
@@ -4523,7 +4543,8 @@ class Interp:
         callee = Frame(self, q, fnnode, parent, fid, self.defcls.get(id(fnnode)))
         callee.depth = fr.depth + 1
         self.frames[fid] = callee
-        callee.store = Store({k: self.brand(q, k, v) for k, v in bound.items()}, facts_in, key[5], dict(syms))
+        branded = bound if self.defcls.get(id(fnnode)) is not None else {k: self.brand(q, k, v) for k, v in bound.items()}
+        callee.store = Store(dict(branded), facts_in, key[5], dict(syms))
         if key[6]:
             callee.store.vars.update(dict(key[6]))
         callee.tin = set(tin)
@@ -4812,6 +4833,7 @@ class Interp:
         out = set()
         raises = False
         sure = False
+        unsure_tok = sure_tok = False
         for a in args.pos[0]:
             if a[0] in ('tok', 'str', 'c'):
                 sure = True
@@ -4826,12 +4848,21 @@ class Interp:
                 if heads is not None and last is True and sz and heads <= sz:
                     out.add(INT_U)
                     self.ev_discharge[id(node)] = (fr.qual, node, 'size-token', sorted(heads), None)
+                elif sz and last is not False and ('?' in sz or heads is None):
+                    # a size written by the reader may be this token, but under which keyword it was appended / which
+                    # keyword this token list starts with is not known here: no verdict rather than a finding
+                    raises = True
+                    unsure_tok = True
+                    out.add(INT_U)
                 else:
                     raises = True
+                    sure_tok = True
                     out.add(INT_U)
             elif a[0] == 'str':
                 if a[1] == 'u':
                     raises = True
+                    if a[2] == 'maybe-size':
+                        unsure_tok = True
                 out.add(INT_U if a[1] == 'u' else INT_S)
             elif is_int_atom(a) or a == FLOAT:
                 out.add(a if a[0] == 'int' else INT_S)
@@ -4844,7 +4875,7 @@ class Interp:
             else:
                 out.add(INT_U)
         if raises:
-            really = any((a[0] == 'tok') or (a[0] == 'str' and a[1] == 'u') or (a[0] == 'c' and a[1] == 'str') for a in args.pos[0])
+            really = sure_tok or any((a[0] == 'str' and a[1] == 'u' and a[2] != 'maybe-size') or (a[0] == 'c' and a[1] == 'str') for a in args.pos[0])
             self.library_raise(fr, 'ValueError', node, uncertain=not really)
         return frozenset(out)
 
@@ -5050,7 +5081,7 @@ class Interp:
             text = fmt_atom[2]
             if text.endswith('{}') and text[-3:-2].isspace() and text.count('{') == len(args.pos) \
                     and all(a == ('int', 'fsize') for a in args.pos[-1]):
-                extra = ('sizeint', self.guard_keywords(fr))
+                extra = ('sizeint', self.guard_keywords(fr) or frozenset({'?'}))
         return av(('str', taint, extra))
 
     def apply_method(self, fr, a, attr, args, node):
@@ -5606,7 +5637,7 @@ class Interp:
             if name in ('os.listdir',):
                 return av(('list', av(STR_U)))
             if name.startswith('os.path.') or name in ('os.getcwd', 'os.fspath', 'os.getenv'):
-                return av(STR_U)
+                return av(('str', 'u', ('derived', name)))
             return av(EXT)
         if root == 're':
             fn = name.split('.', 1)[1]
